@@ -206,3 +206,15 @@ Proof. intros. unfold zeros. rewrite Z2Nat.inj_add by lia. apply repeat_app. Qed
 
 Lemma get_lstr_len bs off : Zlength (slice bs off 0) = 0.
 Proof. unfold slice. change (Z.to_nat 0) with O. reflexivity. Qed.
+
+Lemma field_fits fs k f : nth_error fs k = Some f -> foff fs k + fsize f <= fsizes fs.
+Proof. unfold fsizes. revert k. induction fs; intros [|k] H; cbn [nth_error] in H; try discriminate.
+  - inversion H; subst. cbn [foff length]. pose proof (foff_nonneg fs (length fs)). lia.
+  - cbn [foff length]. specialize (IHfs k H). lia. Qed.
+
+
+Lemma foff_succ fs k f : nth_error fs k = Some f -> foff fs (S k) = foff fs k + fsize f.
+Proof. revert k. induction fs; intros [|k] H; cbn [nth_error] in H; try discriminate.
+  - inversion H; subst. cbn [foff]. destruct fs; cbn [foff]; lia.
+  - change (foff (a :: fs) (S (S k))) with (fsize a + foff fs (S k)).
+    change (foff (a :: fs) (S k)) with (fsize a + foff fs k). rewrite (IHfs k H). lia. Qed.
